@@ -93,8 +93,25 @@ def check_conv(conf, G, name, kw, nodes, times, P):
     # isolation: mutate everything nested in the result; G must not notice
     ref = copy.deepcopy(dict(G.nodes(data=True))), copy.deepcopy(G.graph)
     muts = _mutate_nested(H)
-    for n in list(H.nodes()):
-        H.nodes(data=True)
+    # ... and grow the result: prolong the last run of every pair (adjacent point, overlapping interval),
+    # re-add, add a brand-new pair and node -- none of it may show in G
+    hi = max(htimes) + 1
+    for it in list(H.out_interactions() if H.is_directed() else H.interactions()):
+        u, v, tl = it[0], it[1], it[2].get('t') or []
+        if not tl:
+            continue
+        end = tl[-1][1]
+        for (t, e) in ((end + 1, None), (end, end + 4), (end + 2, None)):
+            try:
+                H.add_interaction(u, v, t) if e is None else H.add_interaction(u, v, t, e)
+                muts += 1
+            except Exception:
+                pass
+    try:
+        H.add_interaction(fl['z'], fl['ids'][0], hi)
+        H.add_node(('fresh', 1), k=[1])
+    except Exception:
+        pass
     now = dict(G.nodes(data=True)), G.graph
     if now[0] != ref[0] or now[1] != ref[1]:
         bad('aliasing', {'G node attrs': repr(now[0])[:300], 'G.graph': repr(now[1])[:200]},
